@@ -114,7 +114,7 @@ def handleAcc (h : HMap) (ks : Bytes) (obs : List String) : String × String :=
     ["get", optHex (get v .ascii ks h), "getbin", optHex (get v .binary ks h), "all"] ++ showAll (getAll v .ascii ks h)
     ++ ["allbin"] ++ showAll (getAll v .binary ks h) ++ ["has", if containsKey ks h then "1" else "0"]
     ++ ["rm", optHex rmA.1] ++ HMap.render rmA.2 ++ ["rmbin", optHex rmB.1] ++ HMap.render rmB.2
-    ++ ["mut", optHex (get v .ascii ks h), optHex (get v .binary ks h)]
+    ++ ["mut", optHex (get v .ascii ks h), optHex (get v .binary ks h)] ++ ["kt", "1"]
   -- spec: the stored (normalised) name decides the category
   let n? := HMap.normName ks
   let asc : Bool := match n? with | some n => !Spec.Metadata.isBinName n | none => false
@@ -128,11 +128,13 @@ def handleAcc (h : HMap) (ks : Bytes) (obs : List String) : String × String :=
     ++ ["rm", optHex (if asc then vals.head? else none)] ++ HMap.render (if asc then after else h)
     ++ ["rmbin", optHex (if bin then vals.head? else none)] ++ HMap.render (if bin then after else h)
     ++ ["mut", optHex (if asc then vals.head? else none), optHex (if bin then vals.head? else none)]
+    -- `kt`: String, &String and typed keys gave what the &str key gave
+    ++ ["kt", "1"]
   -- name the clause by the first differing accessor
   let clause : String :=
     let rec firstDiff : List String → List String → String → String
       | a :: as, b :: bs, cur =>
-        let cur := if ["get", "getbin", "all", "allbin", "has", "rm", "rmbin", "mut"].contains b then b else cur
+        let cur := if ["get", "getbin", "all", "allbin", "has", "rm", "rmbin", "mut", "kt"].contains b then b else cur
         if a == b then firstDiff as bs cur else cur
       | _, _, cur => cur
     firstDiff obs expected "shape"
